@@ -112,3 +112,36 @@ def mask_oom(impl, model):
     if len(a) != len(b):
         return impl
     return ' '.join('oom' if y == 'oom' else x for x, y in zip(a, b))
+
+
+def doc_column_part(chk, which):
+    """The NetFlow v5 ('v5') or sFlow ('sf') column of the field table of docs/protocols.md: theorem
+    c08_doc_v5_column_implemented / c09_doc_sflow_column_implemented says every cell holds of the MODEL on a fixed set of
+    probe datagrams; here (1) the rows the model does not satisfy are listed by name, so a broken theorem comes with the
+    documentation row as its replay, and (2) the very probe datagrams are sent through the real pipe and compared with the
+    model on every column, which carries the theorem's verdict over to the implementation."""
+    fails = [t for t in model_run('C08T', ['v5doc' if which == 'v5' else 'sfdoc'])[0].split(' ') if t not in ('end', '')]
+    for n in fails:
+        chk.record('doc-' + which, dict(concrete=True, input='docs/protocols.md row %s, %s cell' % (n, 'NetFlow v5' if which == 'v5' else 'sFlow'),
+                   impl='(the producer model, compared with the implementation on the same probes below)',
+                   what='the documentation table says where this column comes from and the producer does not fill it from there'), {})
+    if which == 'v5':
+        if model_run('C08T', ['v5layout'])[0] != 'ok':
+            chk.record('doc-v5', dict(concrete=False, what='the widths of the Go structs PacketNetFlowV5 / RecordsNetFlowV5 are not the widths the model decodes with'), {})
+        probes = ['pipe netflow none =0a000001 #7d0 #17979cfe362a0000 ' + model_run('C08T', ['v5probe'])[0]]
+    else:
+        ks = [0, 1, 2, 3, 10, 11, 12, 13, 14]
+        pr = model_run('C08T', ['sfprobe #%x' % k for k in ks])
+        probes = ['pipe sflow none =0a000009 #18c7 #17979cfe362a0000 ' + b for b in pr]
+    impl = impl_run(chk.harness, probes, timeout=60.0)
+    mod = model_run('C06', probes)
+    chk.evals += len(probes)
+    chk.count('documentation probes (%s)' % which, len(probes))
+    for a, o, m in zip(probes, impl, mod):
+        if ' m ' in (' ' + m + ' '):
+            chk.nontrivial.add(hashlib.sha1(a.encode()).digest()[:8])
+        if o != m:
+            chk.record('scopeA-docprobe', dict(concrete=True, input=a, impl=o[:3000], expected=m[:3000],
+                       what='a probe datagram of the documentation-table theorem is not converted as the model converts it'), {})
+    chk.exhaustive.append('every row of the %s column of docs/protocols.md (theorem, kernel evaluation); %d probe datagrams through the real pipe'
+                          % ('NetFlow v5' if which == 'v5' else 'sFlow', len(probes)))
